@@ -146,7 +146,7 @@ class Source:
     def find_impls(self, rng, header_regex):
         """Body ranges of all depth-0 impls whose header matches header_regex."""
         hits = []
-        for mm in self._depth0_positions(rng, r"\bimpl\b"):
+        for mm in self._depth0_positions(rng, r"\b(?:impl|trait)\b"):
             op = self.masked.find("{", mm.start())
             header = " ".join(self.masked[mm.start():op].split())
             if re.fullmatch(header_regex, header):
